@@ -79,6 +79,7 @@ func main() {
 	runOpen(f, res, w, drv)
 	runSelect(f, res, w, drv)
 	runInvoke(f, res, w, drv)
+	runChain(f, res, w, drv)
 	if err := res.Write(f.Out); err != nil {
 		lib.Fatal(err)
 	}
@@ -189,7 +190,17 @@ func checkCase(w *world, mon *lib.Monitor, c scase) (ow, og outcome) {
 			"the handler observed different inputs / header-call results under the wrapper than under gRPC",
 			c, og.server, ow.server)
 	}
-	if ow.leak > 0 {
+	for _, o := range []struct {
+		name string
+		out  outcome
+	}{{"wrapper", ow}, {"grpc", og}} {
+		if o.out.helperLeft {
+			mon.Violate("C13/"+c.Shape+"/goroutine-left/handler-context-live-after-return",
+				"the call has finished and the handler has returned, but the handler's context has not ended ("+o.name+"): a goroutine the handler tied to its context stays behind for as long as the caller's context lives",
+				c, "handler's context ended", "still live after "+patience.String())
+		}
+	}
+	if ow.leak > 0 && !ow.helperLeft {
 		mon.Violate("C13/"+c.Shape+"/goroutine-left",
 			"goroutines above the baseline after the wrapped call finished or was cancelled",
 			c, "0", fmt.Sprint(ow.leak))
@@ -367,6 +378,27 @@ func runScripts(f lib.Flags, res *lib.Result, w *world, drv *lib.Driver) {
 		checkCase(w, mon, c)
 		mon.Count("parked")
 	}
+	tieH := res.Tie("handler-ctx-model", "K2",
+		"finished calls of every shape (clean end, errors; bare connection, generated wrappers; plain and loaded caller contexts) whose handler ties a helper goroutine to its context right before returning, the caller's context kept live: Lean Wrap.handlerCtxDone / GrpcRef.handlerCtxDone in the state 'handler returned, caller's context live' = whether the helper was released on the real wrapper / over real gRPC")
+	tieH.Exhaustive = true
+	for _, c := range watchCases() {
+		ow, og := checkCase(w, mon, c)
+		mon.Count("watch")
+		if drv == nil {
+			tieH.Fail(fmt.Errorf("no Lean driver given"))
+			break
+		}
+		if og.timedOut || ow.timedOut {
+			continue
+		}
+		model, err := drv.Batch([]string{"hctx " + c.Shape + " true false"})
+		if err != nil {
+			tieH.Fail(err)
+			break
+		}
+		tieH.Record(c.key(), true, c, model[0], fmt.Sprintf("%v/%v", !ow.helperLeft, !og.helperLeft))
+		tieH.Count(c.Shape)
+	}
 	runResponseThenError(w, mon)
 	runTrailerAfterAbort(w, mon)
 	var pool []scase
@@ -420,7 +452,10 @@ func replay(f lib.Flags) int {
 	m := lib.NewMonitor("replay", "")
 	var oc openCase
 	var c scase
-	if json.Unmarshal(b, &oc) == nil && oc.Method != "" {
+	var ch chainCase
+	if json.Unmarshal(b, &ch) == nil && (ch.Born != "" || len(ch.Ends) > 0) {
+		fmt.Printf("replay %+v: %s\n", ch, checkChain(w, m, ch))
+	} else if json.Unmarshal(b, &oc) == nil && oc.Method != "" {
 		checkOpen(w, m, oc)
 		fmt.Printf("replay %+v\n", oc)
 	} else if json.Unmarshal(b, &c) == nil && c.Shape != "" {
